@@ -32,6 +32,11 @@ enum Scenario {
     ClientAbandonBig { kind: Kind, k: usize, pad: usize, queued: bool },
     /// AsyncServerWriteTimeout with the large response and / or the following request on `_blocking` routes
     AsyncServerWriteTimeoutRoutes { k: usize, pipelined: bool, big_blocking: bool, small_blocking: bool },
+    /// error responses whose text is long (the request's own path or body reflected back): an unknown method
+    /// with a path of `len` bytes, a handler error quoting `len` bytes, each followed by a small request; what
+    /// the peer receives is whole frames, one per request (AsyncServer: byte stream; WebSocket server: one
+    /// binary message per frame)
+    ServerLongError { ws: bool, len: usize, handler_error: bool },
     /// many concurrent writers (calls, every fourth a notify) with pads cycling over the boundary classes
     ManyWriters { kind: Kind, n: usize, stall: Option<usize> },
     /// blocking Client over TCP with a write timeout and a peer that is not reading: notifies of `fill` pad bytes
@@ -147,6 +152,13 @@ fn scenarios(tier: Tier) -> Vec<Scenario> {
         for pipelined in [false, true] {
             for (big_blocking, small_blocking) in [(true, false), (false, true), (true, true)] {
                 v.push(Scenario::AsyncServerWriteTimeoutRoutes { k, pipelined, big_blocking, small_blocking });
+            }
+        }
+    }
+    for ws in [false, true] {
+        for len in [100usize, 4000, 4096, 4097, 5000, 8192, 70_000] {
+            for handler_error in [false, true] {
+                v.push(Scenario::ServerLongError { ws, len, handler_error });
             }
         }
     }
@@ -426,6 +438,7 @@ fn big_router() -> Router {
         // their responses share the connection with everything else
         .with_json_blocking("/bigb", |v: Value| Ok(json!({"tag": v, "pad": "y".repeat(20_000)})))
         .with_json_blocking("/smallb", |v: Value| Ok(json!({"tag": v})))
+        .with_json("/quote", |v: Value| -> Result<Value, (ErrorCode, String)> { Err((ErrorCode::InvalidBody, format!("cannot use {v}"))) })
 }
 
 async fn async_server_conn(write_timeout: Option<Duration>, slot: u16) -> (memstream::Ctl, memstream::End, tokio::task::JoinHandle<()>) {
@@ -532,6 +545,59 @@ async fn async_server_stall(k: usize, n: usize, chunk: usize) -> (Bad, u64) {
             }
         }
         other => bad.push(("C05:AsyncServer:torn-or-interleaved".into(), format!("{ctx}: {:?}", other.map(|(f, r)| (f.len(), r))))),
+    }
+    srv.abort();
+    (bad, 64)
+}
+
+async fn server_long_error(ws: bool, len: usize, handler_error: bool) -> (Bad, u64) {
+    let mut bad = Bad::new();
+    let ctx = format!("{} answering an error whose text reflects {len} bytes of the request ({}), then a small request", if ws { "WebSocket server" } else { "AsyncServer" }, if handler_error { "handler error quoting its body" } else { "unknown method path" });
+    let first = if handler_error {
+        Frame::request(1, "/quote", format!("\"{}\"", "q".repeat(len)).as_bytes(), FMT_JSON, false)
+    } else {
+        Frame::request(1, &format!("/nope/{}", "p".repeat(len)), b"1", FMT_JSON, false)
+    };
+    let second = Frame::request(2, "/small", b"2", FMT_JSON, false);
+    if ws {
+        let shared = repe::WebSocketServer::new(big_router()).into_shared();
+        let mut c = wsh::connect(&shared, Serve::Plain, None).await;
+        for f in [&first, &second] {
+            if c.send_frame(f).await.is_err() {
+                bad.push(("C05:harness".into(), "send failed".into()));
+            }
+        }
+        let mut ids = Vec::new();
+        for _ in 0..2 {
+            match c.next(Duration::from_secs(10)).await {
+                Got::Frame(f) => ids.push(f.h.id),
+                Got::BadBinary(b) => bad.push(("C05:WebSocketServer:message-not-one-frame".into(), format!("{ctx}: a binary message of {} bytes is not exactly one frame", b.len()))),
+                other => {
+                    bad.push(("C05:WebSocketServer:missing-frames".into(), format!("{ctx}: {other:?} after responses {ids:?}")));
+                    break;
+                }
+            }
+        }
+        if bad.is_empty() && ids != [1, 2] {
+            bad.push(("C05:WebSocketServer:frames-differ".into(), format!("{ctx}: response ids {ids:?}")));
+        }
+        drop(c.client);
+        let _ = tokio::time::timeout(Duration::from_secs(10), c.server).await;
+        return (bad, 128);
+    }
+    let (ctl, _client_end, srv) = async_server_conn(None, srv_slot()).await;
+    ctl.b_to_a.push(&first.to_bytes());
+    ctl.b_to_a.push(&second.to_bytes());
+    memstream::settle().await;
+    let wire = ctl.a_to_b.take();
+    match frames::split_stream(&wire) {
+        Ok((fr, 0)) => {
+            let ids: Vec<u64> = fr.iter().map(|f| f.h.id).collect();
+            if ids != [1, 2] {
+                bad.push(("C05:AsyncServer:frames-differ".into(), format!("{ctx}: response ids {ids:?}, expected [1, 2]")));
+            }
+        }
+        other => bad.push(("C05:AsyncServer:torn-or-interleaved".into(), format!("{ctx}: the {} bytes the peer received do not split into whole frames: {:?}", wire.len(), other.map(|(f, r)| (f.iter().map(|x| x.h.length).collect::<Vec<_>>(), r))))),
     }
     srv.abort();
     (bad, 64)
@@ -897,6 +963,7 @@ fn run_one(rt: &tokio::runtime::Runtime, sc: &Scenario) -> (Bad, u64) {
         Scenario::ClientWriters { kind, pads, stall } => rt.block_on(client_writers(*kind, pads, *stall)),
         Scenario::ClientAbandon { kind, k, queued } => rt.block_on(client_abandon(*kind, *k, *queued, None, 20_000)),
         Scenario::ClientAbandonThen { kind, k, then } => rt.block_on(client_abandon(*kind, *k, false, Some(*then), 20_000)),
+        Scenario::ServerLongError { ws, len, handler_error } => rt.block_on(server_long_error(*ws, *len, *handler_error)),
         Scenario::AsyncServerWriteTimeoutRoutes { k, pipelined, big_blocking, small_blocking } => {
             rt.block_on(async_server_write_timeout_on(*k, *pipelined, if *big_blocking { "/bigb" } else { "/big" }, if *small_blocking { "/smallb" } else { "/small" }))
         }
